@@ -103,6 +103,38 @@ pub fn run() -> i32 {
             fails += 1;
         }
     }
+    // 5. the storage layouts have the characteristics the checks rely on (on a tree with decisions at depth 2)
+    {
+        use crate::gen::{Aff, TSpec};
+        let p = |b: f64| Aff::row1(&[1.0, 0.0], b);
+        let leaf = |v: f64| Some(TSpec::Leaf(Aff::new(vec![vec![1.0, 2.0], vec![3.0, 4.0]], vec![v, 0.0])));
+        let d2 = |b: f64| Some(TSpec::Dec(p(b), vec![leaf(b), leaf(b + 0.5)]));
+        let t = TSpec::Dec(p(0.0), vec![Some(TSpec::Dec(p(1.0), vec![d2(2.0), d2(3.0)])), Some(TSpec::Dec(p(-1.0), vec![d2(-2.0), leaf(9.0)]))]);
+        let s2 = crate::snap::snap(&t.build_layout::<2>(2));
+        let child_before_parent = s2.nodes.iter().any(|(i, n)| !n.isleaf && n.parent.map(|p| p != s2.root && *i < p).unwrap_or(false));
+        if !child_before_parent {
+            eprintln!("selftest: the re-used-index layout has no decision stored before its parent: {:?}", s2.nodes.iter().map(|(i, n)| (*i, n.parent)).collect::<Vec<_>>());
+            fails += 1;
+        }
+        let s4 = crate::snap::snap(&t.build_layout::<2>(4));
+        let terms: Vec<usize> = s4.nodes.iter().filter(|(_, n)| n.isleaf).map(|(i, _)| *i).collect();
+        let apart = s4.nodes.values().filter(|n| !n.isleaf).any(|n| match (n.children[0], n.children[1]) {
+            (Some(a), Some(b)) if s4.nodes[&a].isleaf && s4.nodes[&b].isleaf => {
+                let (ia, ib) = (terms.iter().position(|x| *x == a).unwrap() as i64, terms.iter().position(|x| *x == b).unwrap() as i64);
+                (ia - ib).abs() > 1
+            }
+            _ => false,
+        });
+        if !apart {
+            eprintln!("selftest: the interleaved layout keeps all sibling terminals next to each other");
+            fails += 1;
+        }
+        let t3 = t.build_layout::<2>(3);
+        if t3.tree.terminals().all(|n| n.value.aff.mat.is_standard_layout()) {
+            eprintln!("selftest: the column-major layout stores terminal matrices in standard order");
+            fails += 1;
+        }
+    }
     println!("selftest: {} systems, {} optima cross-checked against Fourier-Motzkin; explorer and classifier seeds ok: {}", n_sys, n_opt, if fails == 0 { "PASS" } else { "FAIL" });
     if fails == 0 { 0 } else { 5 }
 }
